@@ -91,11 +91,12 @@ def handle : DrvHandler := fun op args =>
       let h' := step cfg h it
       let res := nextStartN cfg (pviewOf obs) fuel h' it
       some (ok (Json.mkObj [
-        ("invokes", .bool ((h.atTop it.top).awakened it.start && !precheckFails cfg (h.atTop it.top) it.start)),
-        ("expires", .bool ((h.atTop it.top).awakened it.start && precheckFails cfg (h.atTop it.top) it.start)),
+        ("invokes", .bool ((h.entry it.top it.start).awakened it.start && !precheckFails cfg (h.entry it.top it.start) it.start)),
+        ("expires", .bool ((h.entry it.top it.start).awakened it.start && precheckFails cfg (h.entry it.top it.start) it.start)),
+        ("forever_stopped", .bool (marksForeverStopped { done := h'.finished, anyFailure := h'.failure })),
         ("attempt", .num (JsonNumber.fromNat (attemptOf h it))),
         ("state", stateJson h'),
-        ("top", match res with | .start top _ => stateJson (h'.atTop top) | _ => .null),
+        ("top", match res with | .start top t => stateJson (h'.entry top t) | _ => .null),
         ("wake", wakeJson (wake cfg h' it)),
         ("res", resJson res)]))
   | "C10.first", [cj, sj, oj, fj] => do
@@ -106,7 +107,8 @@ def handle : DrvHandler := fun op args =>
       some (ok (Json.mkObj [
         ("res", resJson (firstStartN cfg (pviewOf obs) fuel spawn)),
         ("wake", wakeJson (.at (initialWake cfg spawn))),
-        ("top", stateJson (initState cfg spawn))]))
+        ("top", match firstStartN cfg (pviewOf obs) fuel spawn with
+                | .start top t => stateJson ((initState cfg spawn).entry top t) | _ => .null)]))
   | "C10.reset", [lh, seen, e] => do
       let lh ← jOpt? jNat? lh
       let seen ← jOpt? jNat? seen
